@@ -34,10 +34,31 @@ def decide' (entry : String) (g a o p v : Bool) (sig : SigStatus) (eq m au x : B
   | "updateParams" => some (admitUpdateParams st r)
   | _ => none
 
+def exStateD : AuthState :=
+  { gateway := 1, avsOwners := (fun _ => []), isAVS := (fun _ => true), isOperator := (fun _ => true),
+    isValidator := (fun _ => false), authority := 99, mainnet := true }
+
+/-- task result: ph 1|2|x; eq = from-field = signer; same = from-field = Info.OperatorAddress;
+    isOp = Info.OperatorAddress is a registered operator; ok = payload otherwise admissible in its phase -/
+def taskDecide (ph sig : String) (eq same isOp ok : Bool) : String :=
+  let subject : Addr := if same then 10 else 20
+  let st : AuthState :=
+    { gateway := 1, avsOwners := fun _ => [], isAVS := fun _ => false,
+      isOperator := fun c => c == subject && isOp,
+      isValidator := fun _ => false, authority := 99, mainnet := true }
+  let phase : Phase := if ph == "1" then .one else if ph == "2" then .two else .other
+  let mk (sg : SigStatus) : String :=
+    let r : Request :=
+      { callerAddress := 0, origin := if eq then 10 else 11, arg0 := 10, sig := sg, subject := subject, phase := phase }
+    if admitTaskResult st r ok then "accept" else "reject"
+  if sig == "valid" then mk .valid else if sig == "forged" then mk .forged else if sig == "nopub" then mk .noPubKey else "bad-op"
+
 def step (u : Unit) (w : List String) : Unit × String :=
   match w with
   | ["auth.reset"] => (u, "ok")
   | "auth.note" :: _ => (u, "ok")
+  | ["auth.task", ph, sig, eq, same, isOp, ok] => (u, taskDecide ph sig (b eq) (b same) (b isOp) (b ok))
+  | ["auth.challenge", ok] => (u, if admitChallenge exStateD { callerAddress := 50, origin := 50, arg0 := 61, sig := .valid } (b ok) then "accept" else "reject")
   | ["auth", entry, g, a, o, p, v, sig, eq, m, au, x] =>
     let sg := match sig with | "valid" => some SigStatus.valid | "forged" => some .forged | "nopub" => some .noPubKey | _ => none
     match sg with
